@@ -381,14 +381,18 @@ impl<T> Timer<T> {
         self.poll_to(target_tick)
     }
 
-    fn poll_to(&mut self, mut target_tick: Tick) -> Option<T> {
+    fn poll_to(&mut self, target_tick: Tick) -> Option<T> {
         trace!(
             "tick_to; target_tick={}; current_tick={}",
             target_tick, self.tick
         );
 
+        // The hand only moves past a tick once its slot has been walked: when it
+        // already stands beyond `target_tick` nothing up to `target_tick` is left.
+        // Walking on regardless would fire the timeouts of `self.tick` before their
+        // time and push the hand one tick further ahead of the clock on every call.
         if target_tick < self.tick {
-            target_tick = self.tick;
+            return None;
         }
 
         while self.tick <= target_tick {
